@@ -28,6 +28,10 @@ def t_signature(c, msg):
         return SIG_INSIDE
     if sc == "during":
         return SIG_DURING
+    o = c.get("obs") or {}
+    if c.get("mode") == "callback" and o.get("closer_local") == 0 and o.get("closer_remote") == 0 and o.get("closer_state") == 1:
+        # fingerprint of the half-close branch of Close(): the closing end ends closed without any close callback
+        return SIG_DURING
     if sc == "inflight-to-closed" and ("still counts as active" in msg or "still active" in msg):
         return SIG_GHOST
     return "C10:" + re.sub(r"\d+", "#", msg)[:70]
